@@ -136,7 +136,58 @@ def abstract_config(cfg):
                 _, b = split_counter(e)
                 bk.append((b, b))
             out.append({'p': n, 'c': ch, 'bk': bk})
+    # the documented order of the data points of each chart, as a rank per key
+    for d in out:
+        keys = sorted(set(k for (_, k) in d['bk']), key=key_order(d['c']))
+        d['bk'] = [(b, k, keys.index(k) + 1) for (b, k) in d['bk']]
     return out
+
+
+# ---- the total orders in which data points are listed (independent of the code) ----
+_num = r'(0|[1-9][0-9]*)'
+_re_semver = re.compile(r'^v%s(?:\.%s(?:\.%s(?:-([0-9A-Za-z.-]+))?(?:\+([0-9A-Za-z.-]+))?)?)?$' % (_num, _num, _num))
+
+
+def semver_prec(v):
+    """precedence key of a semantic version in the vMAJOR[.MINOR[.PATCH[-PRE][+BUILD]]]
+    grammar of golang.org/x/mod/semver, or None if v is not one.  Build metadata
+    does not take part in precedence; v2 = v2.0 = v2.0.0."""
+    m = _re_semver.match(v)
+    if not m:
+        return None
+    core = (int(m.group(1)), int(m.group(2) or 0), int(m.group(3) or 0))
+    for grp in (m.group(4), m.group(5)):
+        if grp is not None and any(x == '' for x in grp.split('.')):
+            return None
+    if m.group(4) is None:
+        return core + ((1,),)
+    ids = []
+    for part in m.group(4).split('.'):
+        if part.isdigit():
+            if len(part) > 1 and part[0] == '0':
+                return None
+            ids.append((0, int(part), ''))
+        else:
+            ids.append((1, 0, part))
+    return core + ((0, tuple(ids)),)
+
+
+def key_order(chart):
+    """sort key realizing the documented order of a chart's data points: program
+    versions by semver precedence (strings that are no versions first), equal
+    precedence lexically; Go major.minor by number; everything else lexically
+    (byte order = code point order)"""
+    if chart == 'Version':
+        def f(k):
+            pk = semver_prec(k)
+            return ((0,), k) if pk is None else ((1,) + pk, k)
+        return f
+    if chart == 'GoVersion':
+        def g(k):
+            m = _mm.match(k or '')
+            return (int(m.group(1)), int(m.group(2)), k) if m else (-1, -1, k or '')
+        return g
+    return lambda k: k
 
 
 def chart_kind(c):
@@ -149,10 +200,10 @@ def py_chart(reps, descs):
     reps: list of (id, carries)."""
     val = {}
     for d in descs:
-        for (b, k) in d['bk']:
+        for (b, k, _r) in d['bk']:
             val.setdefault((d['p'], d['c'], k), set())
         for (i, car) in reps:
-            for (b, k) in d['bk']:
+            for (b, k, _r) in d['bk']:
                 if (d['p'], d['c'], b) in car:
                     val[(d['p'], d['c'], k)].add(i)
     return len(reps), {t: len(s) for t, s in val.items()}
@@ -189,7 +240,7 @@ def tla_triples(car):
 def tla_charts(descs):
     items = []
     for d in descs:
-        bk = '{' + ', '.join('<<%s, %s>>' % (tla_str(b), tla_str(k)) for (b, k) in sorted(set(d['bk']))) + '}'
+        bk = '{' + ', '.join('<<%s, %s, %d>>' % (tla_str(b), tla_str(k), r) for (b, k, r) in sorted(set(d['bk']))) + '}'
         items.append('[p |-> %s, c |-> %s, bk |-> %s]' % (tla_str(d['p']), tla_str(d['c']), bk))
     return '{' + ',\n   '.join(items) + '}'
 
@@ -208,14 +259,15 @@ def base_config(variant=0):
         'GoVersion': list(GOVERS[:4 if variant % 2 == 0 else 5]),
         'SampleRate': 1,
         'Programs': [
-            {'Name': P_GOPLS, 'Versions': ['v0.14.0', 'v0.15.0-pre.1', 'v0.15.0'],
+            # versions of equal semver precedence but different text, and non-versions
+            {'Name': P_GOPLS, 'Versions': ['v0.14.0', 'v0.15.0-pre.1', 'v0.15.0', 'v0.15.0+incompatible', 'v0.15', 'v0.15.0+build.7', 'devel', 'v0.14'],
              'Counters': [{'Name': 'gopls/editor:{emacs,vim}', 'Rate': 1}, {'Name': 'main', 'Rate': 1}]},
             {'Name': P_GO, 'Versions': list(GOVERS[:4]),
              'Counters': [{'Name': 'go/flag:{a,b}', 'Rate': 1}]},
         ],
     }
     if variant % 3 == 1:
-        cfg['Programs'].append({'Name': P_VULN, 'Versions': ['v1.0.0', 'v1.0.1'],
+        cfg['Programs'].append({'Name': P_VULN, 'Versions': ['v1.0.0', 'v1.0.1', 'v1', 'v1.0.1+meta', '(devel)'],
                                 'Counters': [{'Name': 'govulncheck/scan:{source,binary,source}', 'Rate': 1},   # duplicate bucket
                                              {'Name': 'gopls/editor:{emacs,vim}', 'Rate': 1}],
                                 'Stacks': [{'Name': 'govulncheck/bug', 'Rate': 1, 'Depth': 8}]})
